@@ -1100,6 +1100,12 @@ func (c *RaftCluster) buryStore(storeID uint64) error {
 		return errs.ErrStoreIsUp.FastGenByArgs()
 	}
 
+	// checkStores looked at the region count without holding the lock, a region
+	// heartbeat may have placed a peer on the store since then.
+	if regionCount := c.core.GetStoreRegionCount(storeID); regionCount > 0 {
+		return errors.Errorf("store %d still holds %d regions, can not be buried", storeID, regionCount)
+	}
+
 	newStore := store.Clone(core.TombstoneStore())
 	log.Warn("store has been Tombstone",
 		zap.Uint64("store-id", newStore.GetID()),
